@@ -83,12 +83,14 @@ def check(ctx):
 
     for s in ll.all_strings(ALPHA, maxlen):
         add(s)
+    for s in ll.all_strings([ll.LF, ll.A] + ll.EDGE, 2):      # byte-class edges
+        add(s)
     for s in ["abc\ndef\nghi", "Hello World!", "abc123abc", "a\nb\nc", "a\rb\nc\r\nd嗨", "\r\n\r\n", "x\n", "\n\n\n", "é\n中\r\n" + ll.EMO, ll.EMO + "\n" + ll.EMO]:
         add(s)
     rng = Rng(ctx.seed).fork("C13-strings")
     for _ in range(nrand):
         n = 5 + rng.below(8)
-        add("".join(rng.choice(ALPHA + [ll.EMO, "\r\n", ll.LF]) for _ in range(n)))
+        add("".join(rng.choice(ALPHA + [ll.EMO, "\r\n", ll.LF] + (ll.EDGE if n % 3 == 0 else [])) for _ in range(n)))
     cases = ["S " + ll.hx(s) for s in strs]
     log("C13: %d strings (%d exhaustive up to %d chars)" % (len(cases), sum(len(ALPHA) ** k for k in range(maxlen + 1)), maxlen))
 
